@@ -342,7 +342,7 @@ def make_ops(g, u, sigs, rng, tier, only_sig=None):
 def judge(lines, meta, impl, model, out, replay_extra, crashed=()):
     """Property oracle on the implementation, then correspondence. Returns statistics."""
     st = {'calls': 0, 'by_form': {}, 'by_expect': {}, 'distinct': set(), 'crash': 0, 'fin_seen': 0, 'gc_steps': 0,
-          'collected_superseded': 0, 'patch_wellused': 0, 'patch_stale': 0}
+          'collected_superseded': 0, 'patch_wellused': 0, 'patch_stale': 0, 'patch_rejected': 0}
     nviol = 0
     for i, (kind, a, h) in enumerate(meta):
         obs = impl[i]
@@ -390,6 +390,7 @@ def judge(lines, meta, impl, model, out, replay_extra, crashed=()):
                 nviol += 1
         elif kind == 'patch':
             st['patch_' + a] += 1
+            st['patch_rejected'] += (obs or '').count('rej:patched')
             if obs is None or 'LEFTOVER' in obs or 'panic' in obs:
                 if nviol < 3:
                     out.violation(f'patch-layer history misbehaved: {obs}', {'kind': 'impl-oracle', 'ops': [lines[i]], 'observed': obs, **replay_extra})
@@ -477,7 +478,8 @@ def run(tier):
                          'calls': st['calls'], 'calls_by_form': st['by_form'], 'calls_by_expected_behaviour': st['by_expect'],
                          'gc_steps': st['gc_steps'], 'calls_with_some_closure_already_collected': st['fin_seen'],
                          'closures_observed_collected_by_end_of_line': st['collected_superseded'],
-                         'patch_layer_histories': {'wellused': st['patch_wellused'], 'stale_guard': st['patch_stale']},
+                         'patch_layer_histories': {'wellused': st['patch_wellused'], 'stale_guard': st['patch_stale'],
+                                                   'replaceFunc_rejected_already_patched': st['patch_rejected']},
                          'process_crashes': len(crashed), 'gen_modules_changed_this_run': changed},
         'samples': [{'op': lines[i][:400], 'impl': (impl[i] or '')[:400], 'model': (model[i][:400] if model else None)}
                     for i in (0, len(lines) // 3, hist_lines + 1 if hist_lines + 1 < len(lines) else 0, len(lines) - 1)],
